@@ -16,7 +16,7 @@ import secpworker
 from props import c08_pycurve
 
 PROP = "C08"
-MODS = ["EmbitModel.Props.C08", "EmbitModel.Props.C08X", "EmbitModel.Props.C08Y", "EmbitModel.Props.C08Z"]
+MODS = ["EmbitModel.Props.C08", "EmbitModel.Props.C08X", "EmbitModel.Props.C08Y", "EmbitModel.Props.C08Z", "EmbitModel.Props.C08W"]
 
 N = 0xFFFFFFFFFFFFFFFFFFFFFFFFFFFFFFFEBAAEDCE6AF48A03BBFD25E8CD0364141
 P = 2**256 - 2**32 - 977
